@@ -55,7 +55,10 @@ def _M(ctx, k, kind):
     M[3, 3] = 1
     # translation ranges keep the three instances apart (n1 low, n3 high) so that "which instance is extreme" does not multiply paths; within them every value is covered
     lo_t, hi_t = {0: (-10, -8), 1: (0.5, 1.5), 2: (8, 10)}.get(k, (-10, 10))
-    t = [ctx.real("t%d_%d" % (k, i), lo_t, hi_t) for i in range(3)]
+    if ctx.params.get("concrete_t"):
+        t = [(2 * Fraction(lo_t) + Fraction(hi_t)) / 3 + Fraction(i, 8) for i in range(3)]  # catalogue offsets inside the same ranges
+    else:
+        t = [ctx.real("t%d_%d" % (k, i), lo_t, hi_t) for i in range(3)]
     s = 1
     if kind == "t":
         R = np.eye(3, dtype=object)
@@ -102,14 +105,30 @@ def _build(ctx):
     M1r, M1, s1 = _M(ctx, 0, kinds[0])
     M2r, M2, s2 = _M(ctx, 1, kinds[1])
     M3r, M3, s3 = _M(ctx, 2, kinds[2])
-    sc.add_geometry(tet, node_name="n1", geom_name="tet", transform=M1r)
-    sc.add_geometry(tet, node_name="n2", geom_name="tet", parent_node_name="n1", transform=M2r)
+    frame = ctx.params.get("frame")
+    if frame:
+        # a frame without geometry, rotated, on top of n1: the local edges below it are pure translations although the instances are rotated in the world
+        Fr, Fm, fs = _M(ctx, 4, frame)
+        sc.graph.update(frame_to="f", matrix=Fr)
+        sc.add_geometry(tet, node_name="n1", geom_name="tet", parent_node_name="f", transform=M1r)
+    else:
+        sc.add_geometry(tet, node_name="n1", geom_name="tet", transform=M1r)
+    # a second INSTANCE of the same geometry (add_geometry would register a renamed copy 'tet_1' instead)
+    sc.graph.update(frame_to="n2", frame_from="n1", matrix=M2r, geometry="tet")
     sc.add_geometry(strip, node_name="n3", geom_name="strip", transform=M3r)
+    if frame:
+        M6 = np.eye(4, dtype=object)
+        M6[0, 3], M6[1, 3], M6[2, 3] = 30, -20, 15
+        sc.graph.update(frame_to="n4", matrix=_as(ctx, M6), geometry="tet")
     if ctx.params.get("extras", True):
         M4r, M4, s4 = _M(ctx, 3, "t")
         sc.graph.update(frame_to="empty", frame_from="n3", matrix=M4r)
         sc.geometry["orphan"] = _mesh(ctx, [(100, 100, 100), (101, 100, 100), (100, 101, 100)], [[0, 1, 2]])
     ref = {"n1": (M1, s1, "tet"), "n2": (lib.matmul(M1, M2), s1 * s2, "tet"), "n3": (M3, s3, "strip")}
+    if frame:
+        ref["n1"] = (lib.matmul(Fm, M1), fs * s1, "tet")
+        ref["n2"] = (lib.matmul(Fm, lib.matmul(M1, M2)), fs * s1 * s2, "tet")
+        ref["n4"] = (M6, 1, "tet")
     return sc, ref
 
 
@@ -212,8 +231,8 @@ def u_chain(ctx):
     M1r, M1, s1 = _M(ctx, 0, kinds[0])
     M2r, M2, s2 = _M(ctx, 1, kinds[1])
     sc.add_geometry(tet, node_name="n0", geom_name="tet", transform=np.eye(4))
-    sc.add_geometry(tet, node_name="n1", geom_name="tet", parent_node_name="n0", transform=M1r)
-    sc.add_geometry(tet, node_name="n2", geom_name="tet", parent_node_name="n1", transform=M2r)
+    sc.graph.update(frame_to="n1", frame_from="n0", matrix=M1r, geometry="tet")
+    sc.graph.update(frame_to="n2", frame_from="n1", matrix=M2r, geometry="tet")
     ref = {"n0": (np.eye(4, dtype=object), 1, "tet"), "n1": (M1, s1, "tet"), "n2": (lib.matmul(M1, M2), s1 * s2, "tet")}
     placed = _placed(ref)
     order = list(itertools.permutations(["n0", "n1", "n2"]))[ctx.choice("order", 6)]
@@ -237,15 +256,31 @@ def _snapshot(ctx, sc):
 
 
 def _unchanged(ctx, sc, snap, tag):
+    _unchanged_once(ctx, sc, snap, tag)
+    # an ordinary edit of the source (a new, unrelated frame) invalidates its graph caches: damage hidden behind a stale cache shows now
+    sc.graph.update(frame_to="__probe", matrix=np.eye(4))
+    _unchanged_once(ctx, sc, snap, tag + " (after a later unrelated edit of the source)", ignore=("__probe",), light=True)
+
+
+def _unchanged_once(ctx, sc, snap, tag, ignore=(), light=False):
     s2 = _snapshot(ctx, sc)
+    for k in ignore:
+        s2[0].pop(k, None)
+    try:
+        ng = sorted(sc.graph.nodes_geometry)
+    except Exception as e:  # noqa
+        ng = "raised %s" % type(e).__name__
+    ctx.concrete_equal(tag + ": source nodes with geometry unchanged", ng, sorted(n for n, (T, g) in snap[0].items() if g is not None))
     ctx.concrete_equal(tag + ": source nodes / base frame / geometry names unchanged", (sorted(s2[0]), s2[2], sorted(s2[1])), (sorted(snap[0]), snap[2], sorted(snap[1])))
     for n in snap[0]:
         if n in s2[0]:
-            ctx.eq(tag + ": source transform of %s unchanged" % n, s2[0][n][0], snap[0][n][0])
+            if not light:
+                ctx.eq(tag + ": source transform of %s unchanged" % n, s2[0][n][0], snap[0][n][0])
             ctx.concrete_equal(tag + ": source geometry of %s unchanged" % n, s2[0][n][1], snap[0][n][1])
     for k in snap[1]:
         if k in s2[1]:
-            ctx.eq(tag + ": source geometry %s vertices unchanged" % k, s2[1][k][0], snap[1][k][0])
+            if not light:
+                ctx.eq(tag + ": source geometry %s vertices unchanged" % k, s2[1][k][0], snap[1][k][0])
 
 
 def u_derived(ctx):
@@ -263,6 +298,8 @@ def u_derived(ctx):
         # editing the copy must not reach the source
         out.geometry["tet"].vertices[0, 0] = ctx.real("edit", -5, 5)
         out.graph.update(frame_to="n3", matrix=np.eye(4))
+        out.graph.update(frame_to="n2", geometry="strip")
+        out.delete_geometry("strip")
     elif op == "scaled":
         k = ctx.real("k", 0.25, 4)
         ctx.assume(lib.l_or(k < 1 - 2e-5, k > 1 + 2e-5))
@@ -395,6 +432,10 @@ def units(tier):
                 continue
             us.append(Unit("%s-%s" % (op, fam), u_derived, params={"kinds": FAMILIES[fam], "op": op, "extras": op not in ("add",)}, key="%s/%s" % (op, fam), functions=FUN,
                            bounds="same forest, operation '%s', edge family '%s', all parameter values" % (op, fam), max_paths=80, wall_s=400, linear=fam in ("t", "rot") and op in ("copy", "rezero", "subscene", "add")))
+    for op in ("scaled3", "scaled", "copy"):
+        us.append(Unit("%s-frame" % op, u_derived, params={"kinds": FAMILIES["t"], "op": op, "frame": "rot1", "concrete_t": True}, key="%s/frame" % op, functions=FUN,
+                       bounds="tet instanced below a rotated geometry-less frame through pure translations and once at world level; operation '%s'; offsets from a catalogue, scale factors symbolic" % op, max_paths=80, wall_s=400))
+    us.append(Unit("quantities-frame", u_quantities, params={"kinds": FAMILIES["t"], "frame": "rot1"}, key="quantities/frame", functions=FUN, bounds="as above: all scene quantities", max_paths=60, wall_s=400, linear=True))
     for fam in ("t", "st", "rot"):
         us.append(Unit("chain-%s" % fam, u_chain, params={"kinds": FAMILIES[fam]}, key="chain/%s" % fam, functions=FUN,
                        bounds="chain world -identity-> n0 -> n1 -> n2 (geometry on each), all 6 orders of first reads, edge family '%s'" % fam, max_paths=60, wall_s=300, linear=fam in ("t", "rot")))
